@@ -144,7 +144,7 @@ PROPS['C10'] = {
 
 PROPS['C11'] = {
     'level': 'other',
-    'verus_units': ['helpers', 'bloom', 'cuckoo', 'hll', 'reservoir'],
+    'verus_units': ['helpers', 'bloom', 'cuckoo', 'hll', 'reservoir', 'lossy', 'cmsheap'],
     'kani': {
         'quick': [
             ('helpers.rs', 'c11_all_zero_intvector_u64', 'complete in element_bits (1..=64); bounded(len<=4)'),
@@ -160,7 +160,7 @@ PROPS['C11'] = {
     'explanation': 'allocation-size contracts proved by Verus for all sizes (all_zero_intvector block count = ceil(bits*len/W); Bloom m bits; Cuckoo/HLL/Reservoir table sizes; growth bounded by representation invariants preserved by every verified operation; clear() keeps sizes); CMS / Quotient / TDigest-backlog sizes by bounded Kani harnesses.',
     'trusted_base': COMMON_TRUST + [INTVEC_TRUST, FBS_TRUST, 'Vec capacity slack and allocator behaviour (std)'],
     'assumptions': [],
-    'not_decided': ['TDigest centroid count O(delta) (same obstacle as C04)', 'LossyCounter O((1/eps) log(eps n)) entries (C09 not_decided)', 'CMSHeap <= k entries (see C10)'],
+    'not_decided': ['TDigest centroid count O(delta) (same obstacle as C04)', 'LossyCounter: the closed-form O((1/eps) log(eps n)) bound (the pruning invariant that implies it -- every tracked entry has f + delta > completed windows -- IS proved)'],
 }
 
 PROPS['C12'] = {
